@@ -213,6 +213,35 @@ const c14Conf2 = `partitions:
               - name: c
 `
 
+// without root.p: the parent p and its child b are marked for removal
+const c14Conf3 = `partitions:
+  - name: default
+    placementrules:
+      - name: provided
+        create: true
+    queues:
+      - name: root
+        submitacl: "*"
+        queues:
+          - name: a
+            resources:
+              guaranteed: {memory: 2}
+`
+
+const c14Conf4 = `partitions:
+  - name: default
+    placementrules:
+      - name: provided
+        create: true
+    queues:
+      - name: root
+        submitacl: "*"
+        queues:
+          - name: a
+            resources:
+              guaranteed: {memory: 1}
+`
+
 func c14Base() *world.Scenario {
 	return &world.Scenario{
 		Name:    "c14",
@@ -331,6 +360,7 @@ func c14ScenariosUnchecked() []c14Scenario {
 		mk("S28-two-cycles-vs-submission-vs-reload", setup, []world.Op{op("SCHEDULE"), op("SCHEDULE")}, []world.Op{op("APP_ADD", "app3"), op("ASK", "c1")}, []world.Op{{K: "CONFIG", N: 1}}),
 		mkQueueMaxRace("S29-queue-max-commit-vs-rm-placed-allocation"),
 		mkNodeRace("S30-node-commit-vs-rm-placed-allocation"),
+		mkQueueRemoval("S31-parent-queue-removal-vs-cleaner"),
 		mkMaxApps("S15-maxapps-restart-vs-schedule"),
 		mkLifecycle("S16-completing-timer-vs-new-ask"),
 		mkUGMReload("S17-limits-reload-vs-schedule"),
@@ -424,6 +454,16 @@ func mkNodeRace(name string) c14Scenario {
 	s.Configs = []string{strings.ReplaceAll(strings.ReplaceAll(s.Configs[0], "max: {memory: 6}", "max: {memory: 60}"), "max: {memory: 3}", "max: {memory: 30}")}
 	s.Nodes = []world.NodeSpec{{ID: "n1", Cap: world.M(3)}}
 	return sc
+}
+
+// a reload drops a parent queue and its child (both are draining); the next reload marks them again || the queue cleaner
+// removes the drained child || REST reads
+func mkQueueRemoval(name string) c14Scenario {
+	s := c14Base()
+	s.Name = "c14-" + name
+	s.Configs = []string{c14Conf, c14Conf2, c14Conf3, c14Conf4}
+	s.Prefix = []world.Op{op("NODE_ADD", "n1"), {K: "CONFIG", N: 2}}
+	return c14Scenario{Name: name, Scn: s, Threads: [][]world.Op{{{K: "CONFIG", N: 3}}, {op("CLEAN_QUEUES")}, {op("REST")}}}
 }
 
 // max applications: the scheduling cycle starts a waiting application || the Completing one is restarted by a new ask ||
